@@ -135,6 +135,14 @@ def gen(tier, rng, boost=1):
             us = list(tx.encode("utf-8")) if w == "8" else ustr(tx)
             ops.append(f"num.policy {src} {t} {o} {m} {units(w, us)}")
     ops += gen_c04_jsonxml(tier, rng, boost)
+    # JSON numbers that need 16-17 significant digits or a large exponent, into double and float targets, from a string AND from a stream
+    from . import C08 as J
+    for _ in range((60 if tier == "quick" else 4000) * boost):
+        x = J.G.f64_of_bits(J.G.rand_leaf(rng, "f64", finite=True)[1])
+        lit = J.G.spell_double(rng, x)
+        for t in ("f64", "f32"):
+            for inp in ("str", "stream"):
+                ops.append(J.json_load_op(rng, ("vec", ("leaf", t)), ("[" + lit + "]").encode(), inp=inp, pol=rng.choice(J.POLS)))
     # ---- the same conversion carried by a MsgPack document: every integer format of a value x every arithmetic target, through the
     # memory reader AND the stream reader (two separately written copies of ReadInteger), both overflow policies
     from . import mpgen as M
@@ -146,6 +154,14 @@ def gen(tier, rng, boost=1):
             for T in (M.INT_TARGETS if tier == "thorough" else rng.sample(M.INT_TARGETS, 3)):
                 for src in ("mem", "stream"):
                     ops.append(M.read_op(src, rng.choice(["throw", "skip"]), "throw", T, rng.choice([0, 0, 254, 255]), M.enc_int(v, f) + bytes([0xC3])))
+    # float 64 values inside / at the edge of / beyond the float range into a float target, both readers, both overflow policies
+    f64s = [0x47EFFFFFE0000000, 0x47EFFFFFE0000001, 0x47EFFFFFF0000000, 0x47F0000000000000, 0xC7EFFFFFE0000000, 0xC7F0000000000000, 0x7FE0000000000000,
+            0x3FF0000000000000, 0x36A0000000000000, 0x0000000000000001, 0x7FF0000000000000, 0x7FF8000000000000, 0xFFF0000000000000]
+    f64s += [rng.getrandbits(64) for _ in range(60 if tier == "quick" else 3000)]
+    for b in f64s:
+        for src in ("mem", "stream"):
+            for ovf in ("throw", "skip"):
+                ops.append(M.read_op(src, ovf, "throw", "f32", rng.choice([0, 250, 253]), bytes([0xCB]) + b.to_bytes(8, "big") + bytes([0xC3])))
     return ops
 
 
